@@ -201,6 +201,17 @@ unit(P, "additivity.PatchedCounts.__add__", fuc=["yaw.correlation.paircounts:Pat
      cases=[dict(ca=a, cb=b) for a in ("left", "right") for b in ("left", "right")])(_C17.u_pc_add)
 
 
+# which patch pairs are counted must not depend on the labels: the linkage is exactly the symmetric condition
+# d(c_i, c_j) <= R_i + R_j + theta (the C01 unit on PatchLinkage.from_catalogs, run here as well)
+def _register_shared():
+    from . import C01 as _C01
+    unit(P, "patch_labels.linkage_is_symmetric", fuc=["yaw.correlation.measurements:PatchLinkage.from_catalogs"],
+         cases=[dict(ncat=n) for n in (2, 3)], trusted=["metric axioms", "itertools.compress"])(_C01.u_links)
+
+
+_register_shared()
+
+
 # ---------------------------------------------------------------------------------------------------------
 # bounded metamorphic battery on the real pipeline
 # ---------------------------------------------------------------------------------------------------------
@@ -236,3 +247,96 @@ def bounded(opts):
                 "catalog split in two (raw DD counts add up); amplitudes, samples, covariance, redshift estimate compared at 1e-9 (covariance 1e-7) relative",
                 evaluations=len(res), distinct_nontrivial=len(res), violations=[dict(id=f"bounded:{n}", detail=d) for n, d in fails][:12],
                 samples=[n for n, _, _ in res[:3]], wall_s=round(time.time() - t0, 2), note="real library; labelled bounded, not counted as proved")
+
+
+# ---------------------------------------------------------------------------------------------------------
+# invariance of finite sums under permutations of their terms; row order and patch relabelling on the real containers
+# ---------------------------------------------------------------------------------------------------------
+
+@unit(P, "sum_permutation_lemma", kind="lemma")
+def u_perm_lemma(ctx):
+    """Σ_{t<n} f(σ t) = Σ_{t<n} f(t) for every bijection σ of [0, n): induction on n over all bijections (the step instantiates the
+    hypothesis at the bijection that agrees with σ except at σ⁻¹(n)); uses the proved point-update schema"""
+    ctx.canary()
+    sigma.prove_schemas(ctx)
+    sigma.prove_permute(ctx)
+
+
+def bijection(ctx, n, hint="pi"):
+    I = z3.IntSort()
+    p, pinv = ctx.fresh_fn(hint, I, I), ctx.fresh_fn(hint + "_inv", I, I)
+    t = bv("t")
+    ctx.assume(forall([t], z3.Implies(z3.And(t >= 0, t < n), z3.And(p(t) >= 0, p(t) < n, pinv(p(t)) == t)), patterns=[p(t)]), "pre:a permutation")
+    ctx.assume(forall([t], z3.Implies(z3.And(t >= 0, t < n), z3.And(pinv(t) >= 0, pinv(t) < n, p(pinv(t)) == t)), patterns=[pinv(t)]), "pre:a permutation")
+    return p, pinv
+
+
+@unit(P, "patch_relabelling.sample_patch_sum", fuc=["yaw.correlation.paircounts:BinwisePatchwiseArray.sample_patch_sum", "yaw.correlation.paircounts:PatchedCounts.get_array"],
+      trusted=["np.einsum", "np.tile"])
+def u_relabel(ctx):
+    """relational: relabelling the patches by a permutation σ (counts'[b, σi, σj] = counts[b, i, j]) leaves the patch sum unchanged
+    and permutes the jackknife samples accordingly: samples'[σk] = samples[k] (two runs of the real function, any N and σ)"""
+    PC = mod("yaw.correlation.paircounts")
+    binning, nb = CC.make_binning(ctx)
+    N = ctx.fresh_int("num_patches", lo=1, size=True)
+    pc = CC.make_patched_counts(ctx, binning, nb, N, False)
+    sg, si = bijection(ctx, N.t, "relabel")
+    A = pc.counts._elem
+    A2 = lambda b, i, j: A(b, si(i), si(j))  # noqa: E731
+    pc2 = PC.PatchedCounts.__new__(PC.PatchedCounts)
+    pc2.binning, pc2.auto = binning, False
+    pc2.counts = SArr(pc.counts.shape, A2, "f")
+    name = "C13/patch_relabelling/sample_patch_sum"
+    ctx.canary()
+    r1 = expect_no_exception(ctx, call(type(pc).sample_patch_sum, pc), name)
+    r2 = expect_no_exception(ctx, call(type(pc2).sample_patch_sum, pc2), name)
+    b, k = ctx.fresh_int("b", lo=0), ctx.fresh_int("k", lo=0)
+    ctx.assume(z3.And(b.t < nb.t, k.t < N.t), "post:arbitrary bin and patch")
+    ctx.assume(z3.And(sg(k.t) >= 0, sg(k.t) < N.t, si(sg(k.t)) == k.t), "pre:a permutation (instance)")
+    ii, jj = bv("i"), bv("j")
+    n = N.t
+    rng_i = z3.And(ii >= 0, ii < n)
+    # (1) inner sums: for every row i', summing over j' = σ j:   Σ_j' A'(b, i', j') = Σ_j A'(b, i', σ j)
+    sigma.permute(ctx, lambda j: A2(b.t, ii, j), sg, si, n, forall=(ii,), bijection_checked=False)
+    # (2) at i' = σ i the re-indexed inner sum is the original row sum:  Σ_j A'(b, σ i, σ j) = Σ_j A(b, i, j)
+    sigma.congruence(ctx, lambda j: A2(b.t, sg(ii), sg(j)), lambda j: A(b.t, ii, j), n, forall=(ii,), where=rng_i, name="relabelled cells are the original cells")
+    # (3) outer sum over i' = σ i
+    inner2 = lambda i: sigma.total(lambda j: A2(b.t, i, j), n)  # noqa: E731
+    inner1 = lambda i: sigma.total(lambda j: A(b.t, i, j), n)   # noqa: E731
+    sigma.permute(ctx, inner2, sg, si, n, bijection_checked=False)
+    sigma.congruence(ctx, lambda i: inner2(sg(i)), inner1, n, name="row sums re-indexed")
+    ctx.check(f"{name}/post:patch_sum_unchanged", SBool(r2.data._elem(b.t) == r1.data._elem(b.t)))
+    # column / row sums through patch σk
+    sk = sg(k.t)
+    sigma.permute(ctx, lambda i: A2(b.t, i, sk), sg, si, n, bijection_checked=False)
+    sigma.congruence(ctx, lambda i: A2(b.t, sg(i), sk), lambda i: A(b.t, i, k.t), n, name="column through the relabelled patch")
+    sigma.permute(ctx, lambda j: A2(b.t, sk, j), sg, si, n, bijection_checked=False)
+    sigma.congruence(ctx, lambda j: A2(b.t, sk, sg(j)), lambda j: A(b.t, k.t, j), n, name="row through the relabelled patch")
+    ctx.check(f"{name}/post:jackknife_samples_permute_with_the_labels", SBool(r2.samples._elem(sk, b.t) == r1.samples._elem(k.t, b.t)),
+              detail="samples'[sigma(k)] == samples[k]")
+
+
+@unit(P, "row_order.reductions", fuc=[], trusted=["np.sum / np.max / np.min contracts"], kind="lemma")
+def u_row_order(ctx):
+    """the reductions the per-patch metadata and the sums of weights are built from do not depend on the order of the records:
+    for any array x and any permutation π of its positions  sum(x∘π) = sum(x), max(x∘π) = max(x), min(x∘π) = min(x)
+    (the numpy contracts on both sides; the sum through the permutation lemma)"""
+    from pyvc import npshim
+    n = ctx.fresh_int("n", lo=1, size=True)
+    pi, pinv = bijection(ctx, n.t)
+    x = SArr.fresh(ctx, "x", (n,), "f")
+    xe = x._elem
+    y = SArr((n,), lambda t: xe(pi(t)), "f")
+    ctx.canary()
+    sigma.permute(ctx, lambda t: xe(t), pi, pinv, n.t, bijection_checked=False)
+    ctx.check("C13/row_order/sum", npshim.sum(y) == npshim.sum(x))
+    def both(fn):
+        mx = fn(x)
+        wx = ctx.ghost["last_extreme_at"].t
+        my = fn(y)
+        wy = ctx.ghost["last_extreme_at"].t
+        # instances of the permutation axioms at the two positions where the extremes are attained
+        ctx.assume(z3.And(pinv(wx) >= 0, pinv(wx) < n.t, pi(pinv(wx)) == wx, pi(wy) >= 0, pi(wy) < n.t), "pre:a permutation (instances)")
+        return mx == my
+    ctx.check("C13/row_order/max", both(npshim.amax))
+    ctx.check("C13/row_order/min", both(npshim.amin))
